@@ -157,7 +157,19 @@ def _choose(driver):
             want = None
         if (got is None) != (want is None) or (got is not None and not all(close(a, b, 1e-12) for a, b in zip(got, want))):
             bad.append({"ws": v, "impl": got, "model": want})
-    return not bad, f"vector handed to rng.choice for all {len(vecs)} weight vectors of length 1-4 over {vals}", bad[:5]
+    # the index filter `get_compatible_bond_descriptor_ids` against the pinned `compatIdsX` (= the model's `compatibleIds`, op IDS):
+    # every list of length 0-3 over a small universe of descriptors, for every choice of `bond` in the universe and for None
+    import c03
+    texts = [("[$]", ""), ("[<]", ""), ("[>]", ""), ("[<1]", ""), ("[>1]", ""), ("[$]", "="), ("[>]", "="), ("[]", "")]
+    objs = [gbigsmiles.BondDescriptor(t, 0, pre, 0) for t, pre in texts]
+    cases = [(list(ix), b) for n in range(0, 4) for ix in itertools.product(range(len(objs)), repeat=n) for b in [None] + list(range(len(objs)))]
+    outs = driver.run([{"op": "IDS", "bds": [c03.desc_json(objs[i]) for i in ix], "b": None if b is None else c03.desc_json(objs[b])} for ix, b in cases])
+    for (ix, b), o in zip(cases, outs):
+        got = [int(x) for x in core.get_compatible_bond_descriptor_ids([objs[i] for i in ix], None if b is None else objs[b])]
+        if o.get("ids") != got:
+            bad.append({"list": [texts[i] for i in ix], "bond": None if b is None else texts[b], "impl": got, "model": o.get("ids")})
+    return not bad, (f"vector handed to rng.choice for all {len(vecs)} weight vectors of length 1-4 over {vals}; index filter on {len(cases)} "
+                     f"(list, bond) pairs over {len(objs)} descriptors"), bad[:5]
 
 
 VALIDATORS["choose"] = _choose
